@@ -58,7 +58,7 @@ def gen(rng, tier, no, wide=False):
                 e.pop("args", None)
             if e.get("ph") == "X" and "stream" in (e.get("args") or {}) and rng.random() < 0.05:
                 e["args"]["stream"] = str(e["args"]["stream"])
-    case["params"] = {"mode": mode, "gz": rng.random() < 0.4, "mp": rng.random() < 0.25, "compact": rng.random() < 0.3}
+    case["params"] = {"mode": mode, "gz": rng.random() < 0.4, "mp": rng.random() < 0.25, "compact": rng.random() < 0.3, "frac": rng.random() < 0.12}
     return case
 
 
@@ -123,6 +123,16 @@ def observe(case):
             canon["index_is_id"] = all(list(ta.t.get_trace(r).index) == list(ta.t.get_trace(r)["index"]) for r in ta.t.get_ranks())
         except Exception as e:  # noqa: BLE001
             canon = {"raises": C.exc_name(e) + ": " + str(e)[:100]}
+        ints = all(isinstance(e.get(k, 0), int) and abs(e.get(k, 0)) < 2 ** 50 for ev in clean["ranks"].values() for e in ev if isinstance(e, dict) for k in ("ts", "dur"))
+        if p.get("frac") and ints and "raises" not in canon:
+            # the first two clauses without rounding: the same files at one eighth of the time scale, HTA_DISABLE_NS_ROUNDING=1
+            def _call(ta2):
+                o = {}
+                for r in ta2.t.get_ranks():
+                    d2 = ta2.t.get_trace(r)
+                    o[r] = sorted([int(i), C.num(float(a) * 8), C.num(float(b) * 8)] for i, a, b in zip(d2["index"], d2["ts"], d2["dur"]))
+                return o
+            canon["twin"] = C.frac_twin(clean, _call)
         nsteps = len({e["name"] for ev in case["ranks"].values() for e in ev if "ProfilerStep" in str(e.get("name", "")) or "ProfilerStep" in str(e.get("cat", ""))})
         return {"canon": canon, "nsteps": nsteps}
     finally:
@@ -188,6 +198,15 @@ def oracle(case, obs) -> List[str]:
         return [f"loading raised {c['raises']}"]
     out = []
     import math
+    tw = c.get("twin")
+    if tw is not None:
+        if "raises" in tw:
+            out.append(tw["raises"])
+        else:
+            exp = {r: sorted([x[0], x[1], x[2]] for x in rows) for r, rows in c["loaded"].items()}
+            if tw != exp:
+                bad = [(r, a, b) for r in exp for a, b in zip(tw.get(r, []), exp[r]) if a != b][:3]
+                out.append(f"at one eighth of the time scale (HTA_DISABLE_NS_ROUNDING=1) aligned start and duration times 8 differ from the integer trace: (rank, twin, integer) {bad}")
     shifts = set()
     for r, ev in case["ranks"].items():
         complete = {i: e for i, e in enumerate(ev) if "dur" in e and e.get("cat") is not None and e.get("cat") != "Trace"}
